@@ -24,7 +24,7 @@ from traits.observation.api import match  # noqa: E402
 
 push_exception_handler(handler=lambda *a: None, reraise_exceptions=False, main=True)
 
-EXN = ["TraitError", "ValueError", "AttributeError", "RuntimeError"]
+EXN = ["TraitError", "ValueError", "AttributeError", "RuntimeError", "NotifierNotFound"]
 EXC = {"TraitError": TraitError, "ValueError": ValueError, "AttributeError": AttributeError,
        "RuntimeError": RuntimeError}
 
@@ -243,13 +243,28 @@ def make():
     return a
 
 
+def obs_count(a):
+    """How many times the filter observer is registered: each registration puts one maintainer for its graph on
+    the object's `trait_added` trait."""
+    h = a.__dict__["_vf"][0]
+    cnt = 0
+    for n in a._trait("trait_added", 2)._notifiers(False) or []:
+        if getattr(n, "graph", None) is not None:
+            hh = n.handler() if callable(n.handler) else n.handler
+            if hh is h:
+                cnt += 1
+    return cnt
+
+
 def snap(a):
     dd = a.__dict__
     return {"x": num(dd["x"]), "t": [num(v) for v in dd["t"]], "l": [num(v) for v in a.l],
             "d": sorted([num(k), num(v)] for k, v in a.d.items()),
             "s": sorted(num(v) for v in a.s), "f": onum(dd.get("f")), "m": onum(dd.get("m")), "p": num(a._p),
             "c": onum(dd.get("_traits_cache_c")), "ad": a.ad.v, "y": onum(dd.get("y")),
-            "ad2": -1 if a.ad2 is None else a.ad2.v}
+            "ad2": -1 if a.ad2 is None else a.ad2.v,
+            "oreg": obs_count(a), "zz": [num(dd.get("zz%d" % i, 0)) for i in range(dd["_vz"])],
+            "ade": -5 if a.ade is None else num(getattr(a.ade, "v", -7))}
 
 
 def reg(a):
@@ -376,9 +391,29 @@ def run_one(obj, op, plan):
     return {"out": out, "st": snap(obj), "log": sorted(obj._log), "reg": reg(obj), "aux": aux(obj)}, fired, echo
 
 
+def filter_constants():
+    """(c, k): one registration walk calls the user filter c + k * (number of zz traits) times."""
+    counts = []
+    for nz in (0, 1):
+        o = make()
+        for _ in range(nz):
+            execute(o, ["AddZ"], [])
+        arm(None)
+        execute(o, ["ObsAdd"], [])
+        counts.append(PLAN["n"])
+        arm(None)
+    return counts[0], counts[1] - counts[0]
+
+
+FC = None
+
+
 def run_case(case):
+    global FC
+    if FC is None:
+        FC = filter_constants()
     a, tw = make(), make()
-    res = {"init": snap(a), "reg0": reg(a), "steps": []}
+    res = {"init": snap(a), "reg0": reg(a), "fc": list(FC), "steps": []}
     for op, plan in case["ops"]:
         oa, fired, echo = run_one(a, op, plan)
         if plan and plan[0] == "call" and fired:
